@@ -81,6 +81,34 @@ def specs(tier: str):
     return out
 
 
+def rep_specs(tier: str):
+    """Repetitions whose operand can succeed without consuming input (DROP, POP of an empty entry): every iteration changes the stack."""
+    import itertools
+
+    L = 4 if tier == "quick" else 5
+    opt_a = ("opt", S("a"))
+    pushes = (("push", opt_a), ("pushlit", ""), PUSH_AB)
+    pres = [t for n in (2, 3) for t in itertools.product(pushes, repeat=n)]
+    guard = ("and", ("drop",))                       # succeeds iff the stack is not empty, changes nothing
+    operands = (("drop",), ("grp", ("seq", (("drop",), opt_a))), ("grp", ("seq", (opt_a, ("drop",)))), ("grp", ("seq", (guard, ("pop",)))),
+                ("grp", ("seq", (guard, ("peek",), ("drop",)))), ("grp", ("alt", (("seq", (S("b"), ("drop",))), ("drop",)))))
+    reps = (("star",), ("plus",), ("opt",), ("exact", 2), ("min", 1), ("max", 2), ("minmax", 1, 2))
+    starts = []
+    for pre in pres:
+        for e in operands:
+            for u in reps:
+                rep = (u[0], e) + tuple(u[1:])
+                starts.append((f"r{len(starts)}", "", ("seq", tuple(pre) + (rep,) + PROBE)))
+                starts.append((f"r{len(starts)}", "", ("seq", tuple(pre) + (("grp", ("alt", (("seq", (rep, NEVER)), S("")))),) + PROBE)))
+                starts.append((f"r{len(starts)}", "", ("seq", tuple(pre) + (rep, ("opt", S("b")), ("peekall",), ("ref", "EOI")))))
+    ins = families.inputs("ab", L)
+    out = []
+    for i in range(0, len(starts), BATCH):
+        grp = starts[i:i + BATCH]
+        out.append(engine.Spec(tuple(grp), [g[0] for g in grp], ins, "zero", f"stack-repetition(L={L})"))
+    return out
+
+
 HISTORY_DEPTH = {"quick": {"Stack": 9, "ParserState": 7}, "thorough": {"Stack": 12, "ParserState": 9}}
 
 
@@ -104,11 +132,13 @@ def run(tier: str) -> int:
     k, L = BOUNDS[tier]
     hist = history_part(tier)
     return gc.run_model_check(
-        C05(), specs(tier), tier, "model_checking",
+        C05(), specs(tier) + rep_specs(tier), tier, "model_checking",
         bounds=[{"inner_size": k, "L": L, "alphabet": "ab", "pre": list(PRES), "wrappers": list(WRAPS), "failer": [False, True]}],
         rule="start rules PRE ~ W[INNER ~ FAILER] ~ PEEK_ALL ~ EOI: PRE in {nothing, PUSH_LITERAL(\"a\"), PUSH(\"a\"|\"b\") ~ PUSH(\"a\"|\"b\")}, INNER every expression with <= k nodes over "
              "{\"a\", PUSH(\"a\"|\"b\"), PUSH_LITERAL(\"b\"), POP, PEEK, DROP, PEEK_ALL, POP_ALL, PEEK[..1], PEEK[-1..], PEEK[0..], PEEK[1..2], PEEK[..0]} with ? * & ! ( ) ~ |, W in {none, (. | \"\"), ?, *, &, !}, "
              "FAILER in {nothing, a literal that cannot match}; x every string over {a,b} up to length L; four modes against the reference model (persistent stack: every abandoned attempt and every predicate is undone by construction). "
+             "Plus the stack-repetition family: after 2-3 pushes of possibly empty entries (PUSH(\"a\"?), PUSH_LITERAL(\"\"), PUSH(\"a\"|\"b\")), every repetition ? * + {2} {1,} {,2} {1,2} of an operand that can succeed without consuming input "
+             "(DROP, (DROP ~ \"a\"?), (\"a\"? ~ DROP), (&DROP ~ POP), (&DROP ~ PEEK ~ DROP), (\"b\" ~ DROP | DROP)), followed by the probe, alone and inside an abandoned alternative. "
              "UNSPEC cases (PEEK/POP on an empty stack, out-of-range slice) are judged only by 'no exception other than PestParsingError'. Non-trivial: the reference run backtracked or returned pairs. "
              "The history-level half of the quantifier is C09's BFS over ParserState.checkpoint/ok/restore x push/drop.",
         assumptions=["no implicit trivia in this family (trivia x stack interplay is exercised relationally by C01/C02)"],
